@@ -173,6 +173,10 @@ func (w *patternWalker) function(f *FuncExp) {
 		if p.Text == "_" {
 			continue
 		}
+		if p.Text == "self" && f.Self != nil && seen["self"] == 0 {
+			// `function t:m(self)`: whether the explicit parameter duplicates the implicit one is not documented
+			w.hit(13, p.Off, true, "explicit self in a colon method")
+		}
 		seen[p.Text]++
 		if seen[p.Text] == 2 {
 			w.hit(13, p.Off, false, "duplicate parameter "+p.Text)
@@ -316,6 +320,22 @@ func (w *patternWalker) exp(e Exp) {
 						if same, _ := SameExp(ug, uf); same {
 							w.hit(5, f.Off, true, "same key expression up to parentheses")
 							break
+						}
+					}
+				}
+			}
+			if key != "" && f.KeyExp != nil {
+				// an earlier key that is this literal in parentheses ([(1)] ... [1]): unspecified
+				for _, g := range t.Fields {
+					if g == f {
+						break
+					}
+					if g.KeyExp != nil {
+						if ug, had := unparen(g.KeyExp); had {
+							if same, _ := SameExp(ug, f.KeyExp); same {
+								w.hit(5, f.Off, true, "same key expression up to parentheses")
+								break
+							}
 						}
 					}
 				}
